@@ -42,6 +42,10 @@ def gen_cases(E, ctx):
         if s.name not in E.BC: continue
         for i in range(6 if not ctx.thorough else 60):
             cases.append(E.make_case(rng, s, maxdepth=rng.choice([4, 5, 6]), size=rng.choice([1.0, 4.0]), klass='deep'))
+    for s in E.corpus:      # embed_buffer inside nested levels, alignments 8..256
+        if s.name in ('bnest', 'bmixd') and s.name in E.BC:
+            for i in range(60 if not ctx.thorough else 600):
+                cases.append(E.make_case(rng, s, maxdepth=rng.choice([3, 4]), size=0.3, klass='nested-embed', embed_bias=0.7))
     if 'bwide' in E.BC:
         for i in range(4 if not ctx.thorough else 40):
             cases.append(E.make_wide_case(rng, count=rng.choice([100, 130, 200])))
@@ -144,8 +148,9 @@ def compare_builds(E, ctx, cases):
 
 def run(ctx):
     ok = ctx.check_theorems()
-    if os.path.exists(os.path.join(lib.COQ, 'Properties', 'Properties_C02b.v')):
-        ok = ctx.check_theorems(prop_module='Properties_C02b') and ok
+    for extra in ('Properties_C02b', 'Properties_C02c'):    # verifier completeness / build_verifies; union vectors + nested levels (xwt_script)
+        if os.path.exists(os.path.join(lib.COQ, 'Properties', extra + '.v')):
+            ok = ctx.check_theorems(prop_module=extra) and ok
     if not ok:
         ctx.broken_obligation('Properties_C02.vo', getattr(ctx, 'broken', {}))
     E = Engine(ctx, with_gen_api=bool(ctx.replay_in))
